@@ -93,6 +93,14 @@ def gen_universe(r, alphabet_ok):
         if r.random() < 0.3:
             leaf = seg()
         names.add('/'.join(d + [leaf]))
+    # siblings that only share leading characters with a directory name (dir `ab` next to `abc/…`, `ab.idx`): a prefix that names
+    # the directory exactly, without a trailing slash, must list them too
+    for d in dirs:
+        if d and r.random() < 0.5:
+            for suffix in r.sample(['c', '.idx', '0', '-old', 'b/' + r.choice(stems)], r.randint(1, 2)):
+                cand = '/'.join(d[:-1] + [d[-1] + suffix])
+                if alphabet_ok(cand.replace('/', '')):
+                    names.add(cand if r.random() < 0.5 or '/' in suffix else cand + '/' + r.choice(stems))
     names = sorted(names)
     # prefix-free: drop every name that is a proper directory prefix of another, or equals a directory in use
     out = [n for n in names if not any(m != n and m.startswith(n + '/') for m in names)]
